@@ -168,7 +168,26 @@ static std::basic_string<C> render(const std::basic_string<C> &tpl, const Value<
     StringStream<C> out;
     vf::ExactBuf<C> b(tpl.data(), tpl.size());
     Template::Render((const C *)b.p, SizeT(b.n), v, out);
-    return std::basic_string<C>(out.First() ? out.First() : (const C *)U"", out.Length());
+    std::basic_string<C> direct(out.First() ? out.First() : (const C *)U"", out.Length());
+    // the same template through a tag cache, a copy of that cache and a copy-assigned one: a tag keeps its kind
+    // ({raw:} stays raw, {var:} stays escaped) however the parsed form travels
+    {
+        Array<Tags::TagBit> cache;
+        StringStream<C>     o1, o2, o3;
+        Template::Render((const C *)b.p, SizeT(b.n), v, o1, cache);
+        Array<Tags::TagBit> copy{cache};
+        Template::Render((const C *)b.p, SizeT(b.n), v, o2, copy);
+        Array<Tags::TagBit> assigned;
+        assigned = copy;
+        Template::Render((const C *)b.p, SizeT(b.n), v, o3, assigned);
+        vf::count("cache_copy_renders", 3);
+        if (!(o1 == out) || !(o2 == out) || !(o3 == out)) {
+            vf::fail("c03:cached-or-copied-tags-render-differently", "template=%s direct=%s cached=%s copy=%s assigned=%s", vf::show(tpl.data(), tpl.size()).c_str(),
+                     vf::show(out.First(), out.Length()).c_str(), vf::show(o1.First(), o1.Length()).c_str(), vf::show(o2.First(), o2.Length()).c_str(),
+                     vf::show(o3.First(), o3.Length()).c_str());
+        }
+    }
+    return direct;
 }
 
 // payload between the sentinels \x01 and \x02
